@@ -29,6 +29,10 @@ def run(tier, seed):
     scripts += tc.generate(rep, "Gen_FimTopology seed=twin (removal transitions)", tc.consts(2 if quick else 3, "twin", "full"),
                            keep=lambda p: p["op"]["op"] in REMOVALS or p["op"]["op"] in HANDLE_OPS or p["op"]["op"] == "Views",
                            workers=8)
+    # a facility with three interfaces: which of them is connected when the facility goes is the explorer's choice
+    scripts += tc.generate(rep, "Gen_FimTopology seed=fac3 (removal transitions)", tc.consts(2 if quick else 3, "fac3", "full"),
+                           keep=lambda p: p["op"]["op"] in REMOVALS or p["op"]["op"] in HANDLE_OPS or p["op"]["op"] == "Views",
+                           workers=8)
     tc.run_and_validate(rep, scripts, "every applicable removal/disconnect in every reachable topology of the bound", only_ops=mine)
     # substrate models: two-ended direct links between node ports, node-level services
     sscripts = tc.generate(rep, "Gen_FimTopology substrate seed=sub (removal transitions)", tc.consts(3 if quick else 4, "sub", "full", "substrate"),
